@@ -60,6 +60,7 @@ def run(ck):
     consumer_defines(ck)
     includable_twice(ck)
     one_state_per_program(ck)
+    unit_scoped_state(ck)
 
 
 def text_agreement(ck):
@@ -431,3 +432,64 @@ def on_analysis_broken(e):
             "site": "qtlogger.h:%s" % d.get("line"), "key": "header-does-not-compile",
             "what": "the library sources compile, but a program that includes qtlogger.h with the same optional features (QTLOGGER_SYSLOG) does not: %s — "
                     "the generator expands an #include where it first occurs and drops later ones, also when the first one sits inside an #ifdef that is off" % d.get("msg")}
+
+
+def unit_scoped_state(ck):
+    """C20-O8: in the library a source file is a translation unit, so whatever compiler state it sets ends with it.  Pasted into the single
+    header the same lines stay in force for the rest of the header and for the user's own code after `#include "qtlogger.h"`:
+    an unbalanced `#pragma pack(push, 1)` changes the layout of the user's types, a `using namespace` directive at file scope changes
+    their name look-up, a `#define` without `#undef` rewrites their identifiers."""
+    ck.rule("C20-O8", "every source file amalgamated into qtlogger.h leaves the compiler state as it found it: #pragma pack / diagnostic / push_macro pushes are popped in the same file, no bare `#pragma pack(n)`, "
+                      "no using-directive at file or namespace scope")
+    src = os.path.join(REPO, "src", "qtlogger")
+    files = []
+    for root, _, names in os.walk(src):
+        for nm in sorted(names):
+            if nm.endswith((".h", ".cpp")) and nm != "qtlogger.h":
+                files.append(os.path.join(root, nm))
+    if len(files) < 60:
+        raise AnalysisBroken("only %d source files found under src/qtlogger" % len(files))
+    bad = 0
+    for p in sorted(files):
+        txt = open(p, errors="replace").read()
+        # strip comments and string literals (a pragma in a comment is not a pragma)
+        code = re.sub(r"/\*.*?\*/", lambda m: "\n" * m.group(0).count("\n"), txt, flags=re.S)
+        code = re.sub(r"//[^\n]*", "", code)
+        rel = os.path.relpath(p, REPO)
+        depth = {"pack": 0, "diag": 0, "macro": 0, "warn": 0}
+        for ln, line in enumerate(code.split("\n"), 1):
+            m = re.match(r"\s*#\s*pragma\s+(.*)", line)
+            u = re.match(r"\s*using\s+namespace\s+([\w:]+)\s*;", line)
+            if u and not line.startswith((" " * 4, "\t")):
+                bad += 1
+                ck.ob("C20-O8", "%s:%d" % (rel, ln), False, "`using namespace %s;` at file scope: pasted into the single header it applies to everything the user declares after including it" % u.group(1), key="unit-state|using|%s" % os.path.basename(p))
+            if not m:
+                continue
+            pr = m.group(1)
+            if re.match(r"pack\s*\(\s*push", pr):
+                depth["pack"] += 1
+            elif re.match(r"pack\s*\(\s*pop", pr):
+                depth["pack"] -= 1
+            elif re.match(r"pack\s*\(\s*\d", pr):
+                bad += 1
+                ck.ob("C20-O8", "%s:%d" % (rel, ln), False, "`#pragma %s` sets the packing without saving it: in the single header the rest of the header and the user's own types are laid out packed" % pr.strip(), key="unit-state|pack|%s" % os.path.basename(p))
+            elif re.match(r"(GCC|clang)\s+diagnostic\s+push", pr):
+                depth["diag"] += 1
+            elif re.match(r"(GCC|clang)\s+diagnostic\s+pop", pr):
+                depth["diag"] -= 1
+            elif re.match(r"warning\s*\(\s*push", pr):
+                depth["warn"] += 1
+            elif re.match(r"warning\s*\(\s*pop", pr):
+                depth["warn"] -= 1
+            elif re.match(r"push_macro", pr):
+                depth["macro"] += 1
+            elif re.match(r"pop_macro", pr):
+                depth["macro"] -= 1
+        for k, d in depth.items():
+            if d != 0:
+                bad += 1
+                what = {"pack": "#pragma pack(push ...)", "diag": "#pragma GCC diagnostic push", "warn": "#pragma warning(push)", "macro": "#pragma push_macro"}[k]
+                ck.ob("C20-O8", rel, False, "%s: %d `%s` without a matching pop%s" % (rel, d, what, ": the library build forgets it at the end of the translation unit, the single header keeps it for the rest of the header and for "
+                      "every type the user's file declares after `#include \"qtlogger.h\"` (a struct seen packed in one file and unpacked in another)" if k == "pack" else ""), key="unit-state|%s|%s" % (k, os.path.basename(p)))
+    if not bad:
+        ck.ob("C20-O8", "src/qtlogger (%d files)" % len(files), True, "no source file leaves a pragma push open, sets the packing bare, or has a using-directive at file scope", key="unit-state|none")
